@@ -656,6 +656,71 @@ def cmd_replay(path):
     print(json.dumps(res))
 
 
+def twin_json(j, r, changed):
+    """a copy of the JSON input that differs where `==` of the library cannot see it (box contents);
+    if there is no such place, one grid cell is changed instead"""
+    if isinstance(j, list):
+        return [twin_json(x, r, changed) for x in j]
+    if not isinstance(j, dict):
+        return j
+    if j.get('cls') == 'Box':
+        inner = j['content']
+        alt = {'cls': 'Key', 'color': 'RED'} if inner != {'cls': 'Key', 'color': 'RED'} else {'cls': 'Wall'}
+        changed.append('box')
+        return {'cls': 'Box', 'content': alt}
+    return {k: twin_json(v, r, changed) for k, v in j.items()}
+
+
+def history_check(spec, inputs, r):
+    """C03: asking the same question again after an intervening call on a look-alike input gives an equal
+    answer (caches keyed by `==`/hash, module-level state, ... would show here)"""
+    import pyvc_rt
+    if spec.kind == 'lemma' or spec.opts.get('stubs'):
+        return None
+    ghost = spec.opts.get('ghost', [])
+    target = resolve(spec.target)
+    if isinstance(target, property):
+        target = target.fget
+
+    def run(j):
+        vals = {k: decode(v) for k, v in j.items() if not k.startswith('stub:')}
+        args = [vals[p] for p in spec.args if p not in spec.kwonly and p not in ghost]
+        kwargs = {p: vals[p] for p in spec.kwonly}
+        if spec.opts.get('call') is not None:
+            args, kwargs = list(spec.opts['call'](**{p: vals[p] for p in spec.args})), {}
+        try:
+            res = ('ok', target(*args, **kwargs))
+        except Exception as e:
+            res = ('raise', type(e).__name__)
+        return res, [a for a in args if not callable(a) and not isinstance(a, ScriptedRng)]
+
+    changed = []
+    tw = twin_json(inputs, r, changed)
+    if not changed:
+        # change one grid cell somewhere
+        def poke(j):
+            if isinstance(j, dict) and 'Grid' in j and j['Grid'] and j['Grid'][0]:
+                g = [list(row) for row in j['Grid']]
+                y, x = r.randrange(len(g)), r.randrange(len(g[0]))
+                g[y][x] = rand_obj(r)
+                changed.append('cell')
+                return {'Grid': g}
+            if isinstance(j, dict):
+                return {k: poke(v) for k, v in j.items()}
+            if isinstance(j, list):
+                return [poke(v) for v in j]
+            return j
+        tw = poke(inputs)
+    if not changed:
+        return None
+    r1, a1 = run(inputs)
+    run(tw)
+    r3, a3 = run(inputs)
+    ok = r1[0] == r3[0] and (pyvc_rt.same(r1[1], r3[1]) if r1[0] == 'ok' else r1[1] == r3[1]) and all(
+        pyvc_rt.same(x, y) for x, y in zip(a1, a3))
+    return ok
+
+
 def correlate(inputs, spec, r):
     """make independent random inputs fit together more often (a position inside the grid it refers to)"""
     g = inputs.get('grid') or inputs.get('self') or inputs.get('g')
@@ -712,6 +777,14 @@ def cmd_crosscheck(module, n, seed, names):
                 continue
             stats['pre_ok'] += 1
             bad = [c for c in res['clauses'] if not c[1]]
+            if 'C03' in spec.props and stats['pre_ok'] % 2 == 0:
+                try:
+                    hc = history_check(spec, inputs, r)
+                except Exception as e:
+                    hc = None
+                if hc is False:
+                    bad.append(('implicit:history-independent', False,
+                                'same call gave a different answer after an intervening call on a look-alike input'))
             if bad and len(stats['failures']) < 5:
                 stats['failures'].append({'inputs': inputs, 'clauses': bad, 'exception': res['exception']})
         out[spec.name] = stats
